@@ -281,11 +281,11 @@ int file_index(const std::string& w) {      // "t" = the test's file, "0".."3" =
 struct Program {
     std::string rep;            // none | bare | a<N> | s<N>
     int verbosity;              // 0, 1 (-v), 2 (-vv), 3 (-v -vv)
-    bool runIgnored, color, rethrow, haveCfg;
+    bool runIgnored, color, rethrow, separate, haveCfg;
     std::vector<std::pair<std::string, std::string> > filters;
     std::vector<PluginDef*> plugins;
     std::vector<TestDef*> tests;
-    Program() : rep("none"), verbosity(0), runIgnored(false), color(false), rethrow(false), haveCfg(false) {}
+    Program() : rep("none"), verbosity(0), runIgnored(false), color(false), rethrow(false), separate(false), haveCfg(false) {}
 };
 
 TestDef* find_test(Program& p, const std::string& label) {
@@ -344,6 +344,7 @@ void run_program(Program& p) {
     if (p.verbosity & 1) args.push_back("-v");
     if (p.verbosity & 2) args.push_back("-vv");
     if (p.color) args.push_back("-c");
+    if (p.separate) args.push_back("-p");         // every test in a forked child; its lines reach the same stdout, in order
     if (p.runIgnored) args.push_back("-ri");
     for (size_t i = 0; i < p.filters.size(); i++) { args.push_back("-" + p.filters[i].first); args.push_back(p.filters[i].second); }
     if (p.rep == "bare") args.push_back("-r");
@@ -399,14 +400,15 @@ void run_case(const vh::Case& c) {
     for (size_t i = 0; i < c.ops.size(); i++) {
         vh::Words w = c.ops[i];
         if (w[0] == "cfg" && w.size() == 4) { w.push_back("0"); w.push_back("0"); }   // older replays: no colour / rethrow fields
+        if (w[0] == "cfg" && w.size() == 6) w.push_back("0");                         // older replays: no -p field
         const std::string& op = w[0];
-        if (op == "cfg" && w.size() == 6 && !p.haveCfg &&
+        if (op == "cfg" && w.size() == 7 && !p.haveCfg && (w[6] == "0" || (w[6] == "1" && w[5] == "0")) &&
             (w[1] == "none" || w[1] == "bare" || ((w[1][0] == 'a' || w[1][0] == 's') && w[1].size() >= 2 && w[1].size() <= 3 &&
               w[1].find_first_not_of("0123456789", 1) == std::string::npos)) &&
             (w[2] == "0" || w[2] == "1" || w[2] == "2" || w[2] == "3") && (w[3] == "0" || w[3] == "1") &&
             (w[4] == "0" || w[4] == "1") && (w[5] == "0" || w[5] == "1")) {
             p.haveCfg = true; p.rep = w[1]; p.verbosity = w[2][0] - '0'; p.runIgnored = w[3] == "1";
-            p.color = w[4] == "1"; p.rethrow = w[5] == "1";
+            p.color = w[4] == "1"; p.rethrow = w[5] == "1"; p.separate = w[6] == "1";
             emit_words(w);
 #if CPPUTEST_HAVE_EXCEPTIONS
             vh::emit("variant exc");
